@@ -23,7 +23,8 @@ VARIABLES tid, i, pc
 tvars == <<cvars, tid, i, pc>>
 
 T == Traces[tid]
-KernelOf(op) == IF op = "mean" THEN "sum" ELSE op
+RatOps == {"mean", "var", "std"}      \* results shipped as exact rationals (std: its square)
+KernelOf(op) == IF op \in RatOps THEN "sum" ELSE op
 N == Len(T.keys)
 MaskOk == IF T.mask.k = "pos" THEN PosOk(N, T.mask.p)
           ELSE IF T.mask.k = "bool" THEN Len(T.mask.b) = N
@@ -62,8 +63,10 @@ TraceRed ==
   /\ i' = i + 1
   /\ UNCHANGED <<tid, pc>>
 
-GVal(g) == IF T.op = "mean" THEN MeanOf(part[g].a, part[g].c) ELSE ValueOf(g)
-EmptyVal == IF T.op = "mean" THEN NullRat ELSE ResultOf(kernel, EmptyP(kernel))
+GVal(g) == IF T.op = "mean" THEN MeanOf(part[g].a, part[g].c)
+           ELSE IF T.op \in {"var", "std"} THEN DefVarRat(GroupValsH(dict[g]), T.ddof)
+           ELSE ValueOf(g)
+EmptyVal == IF T.op \in RatOps THEN NullRat ELSE ResultOf(kernel, EmptyP(kernel))
 DontCareG(g) == T.nonull = 1 /\ ~SumLike(kernel) /\ part[g].c = 0
 
 ExpListed == Listed(T.oo = 1, T.sort = 1, T.rank)
@@ -77,7 +80,7 @@ RowOk(r) == LET key == T.keys[r]
                 g == IndexOf(dict, key)
             IN  IF KeyIsNull(key) \/ ksz[g] = 0
                 THEN \/ T.res[r] = EmptyVal          \* neutral ...
-                     \/ T.res[r] = (IF T.op = "mean" THEN NullRat ELSE Null)   \* ... or null marker
+                     \/ T.res[r] = (IF T.op \in RatOps THEN NullRat ELSE Null)   \* ... or null marker
                      \/ T.nonull = 1
                 ELSE DontCareG(g) \/ T.res[r] = GVal(g)
 
